@@ -169,7 +169,7 @@ Lemma tight_negotiation :
   map c_st (p_conns (run tight_cfg proc_init (tight_trace [0;0;0;2]%N []))) = [StClosed].
 Proof. vm_compute. repeat split. Qed.
 
-(* ---- UDP input channel at /repo HEAD (cfgU = no notes/fix_C05_4.diff): a KeyEvent datagram from a peer
+(* ---- UDP input channel before 93b245e (cfgU, regression witness): a KeyEvent datagram from a peer
    that never spoke to the server is handed to the application of a password-protected screen *)
 Definition udp_key : list N := [4; 1; 0; 0; 0; 0; 0; 97]%N.
 Definition udp_trace : list op := [OScreen demo_screen; OUdpOn 0; OUdp 0 udp_key].
